@@ -183,6 +183,7 @@ func rulesC16(c *Ctx) {
 	skipsetRule(c, "C16.skipset", tt)
 	crfoldRule(c, "C16.crfold")
 	commentsRule(c, "C16.comments")
+	openersRule(c, "C16.openers")
 	afterWSRule(c, tt)
 	parseFreshRule(c, "C16.parsefresh")
 	regexGapRule(c)
@@ -771,4 +772,42 @@ func callSitesOf(p *Program, fn *ssa.Function) []*ssa.Call {
 		}
 	}
 	return out
+}
+
+// openersRule: `--` and `/*` open a comment whatever follows them.
+func openersRule(c *Ctx, rule string) {
+	p := c.P
+	tt := p.tokenTable()
+	c.Rule(rule, "Scanner.Scan, evaluated on the rune pairs `--` and `/*` with every further read bound to a non-blank character, returns COMMENT: the comment markers open a comment whatever follows them (a marker that needs a blank after it makes `--note` two minus signs and the rest of the line part of the statement)")
+	rows, why := p.scanTable()
+	if rows == nil || tt == nil {
+		c.Unk(rule, "scan table", 0, why)
+		return
+	}
+	n := 0
+	for _, r := range rows {
+		if !((r.c0 == '-' && r.c1 == '-') || (r.c0 == '/' && r.c1 == '*')) {
+			continue
+		}
+		n++
+		key := fmt.Sprintf("Scan: %q %q opens a comment", r.c0, r.c1)
+		var pos token.Pos
+		if r.pos != nil {
+			pos = r.pos.Pos()
+		}
+		switch {
+		case r.kind == "token" && tt.Name[r.tok] == "COMMENT":
+			c.OK(rule, key, pos, "COMMENT")
+		case r.kind == "token" && r.tok >= 0:
+			c.Bad(rule, key, pos, "yields "+tt.Name[r.tok]+" when the marker is followed by a character that is not a blank: the marker does not always open a comment")
+		case r.c0 == '/':
+			// a block comment may also end in ILLEGAL when it is never closed: two
+			// returns, which the table does not tell apart; the comment automaton
+			// (comments rule) decides that case
+			n--
+		default:
+			c.Unk(rule, key, pos, "the token for this pair is not a constant of the two runes")
+		}
+	}
+	c.Floor(rule, n, 1)
 }
